@@ -1,6 +1,5 @@
 import Restic.Model.FileRestore
 import Restic.Gen.Source
-import Restic.Gen.Consts
 /-!
 Reading of the regenerated source facts (tie T1) the file-restore model depends on.
 -/
